@@ -9,6 +9,7 @@ FUNCTIONS = [
     "toasty.toast._postfix_corner",
     "toasty.toast.generate_tiles_filtered",
     "toasty.toast.generate_tiles",
+    "toasty.pyramid.Pyramid._generator",
 ]
 LEMMAS = ["nested_div_by_two"]
 SLOW = ()
